@@ -93,22 +93,16 @@ func namesLowered(c *Ctx, rule string, only map[string]bool, min int) {
 		// class(v): how v derives from a name parameter — 0 not at all, 1 through exactly strings.ToLower, 2 unchanged
 		// (raw), 3 through some other transformation (the sanitiser looks names up as the tokenizer delivers them:
 		// ASCII-lower-cased and otherwise verbatim, so any other normalisation makes the stored key unreachable)
-		memo := map[ssa.Value]int{}
-		var class func(v ssa.Value) int
+		// computed as a least fixed point over the function's values (a name rewritten in a loop — x = f(x) — is a cycle)
+		tab := map[ssa.Value]int{}
 		max := func(a, b int) int {
 			if a > b {
 				return a
 			}
 			return b
 		}
-		class = func(v ssa.Value) int {
-			if m, ok := memo[v]; ok {
-				if m < 0 {
-					return 0
-				}
-				return m
-			}
-			memo[v] = -1
+		class := func(v ssa.Value) int { return tab[v] }
+		eval := func(v ssa.Value) int {
 			r := 0
 			switch x := v.(type) {
 			case *ssa.Parameter:
@@ -162,8 +156,30 @@ func namesLowered(c *Ctx, rule string, only map[string]bool, min int) {
 					}
 				}
 			}
-			memo[v] = r
 			return r
+		}
+		var vals []ssa.Value
+		for _, p := range fn.Params {
+			vals = append(vals, p)
+		}
+		for _, b := range fn.Blocks {
+			for _, in := range b.Instrs {
+				if v, ok := in.(ssa.Value); ok {
+					vals = append(vals, v)
+				}
+			}
+		}
+		for round := 0; round < 50; round++ {
+			changed := false
+			for _, v := range vals {
+				if nv := eval(v); nv > tab[v] {
+					tab[v] = nv
+					changed = true
+				}
+			}
+			if !changed {
+				break
+			}
 		}
 		raw := func(v ssa.Value) bool { return class(v) >= 2 }
 		altered := ""
@@ -187,6 +203,11 @@ func namesLowered(c *Ctx, rule string, only map[string]bool, min int) {
 						bad = "a table lookup key at " + c.P.Pos(x.Pos())
 					}
 				case *ssa.Store:
+					if isStringish(x.Val.Type()) && class(x.Val) == 3 {
+						if _, isIA := x.Addr.(*ssa.IndexAddr); isIA {
+							noteAltered(x.Val, "an appended name at "+c.P.Pos(x.Pos()))
+						}
+					}
 					if isStringish(x.Val.Type()) && raw(x.Val) {
 						// stores into the varargs temp / locals are fine; stores into fields or slice elements of builders/policies are sinks
 						root, path := storePath(x.Addr)
